@@ -309,6 +309,22 @@ def evaluate(case):
         ok, why = kd.elem_equal(gi, rinv, tol)
         if not ok:
             raise Violation("two-sided-inverse", "inv", f"x.inv() differs from the exact inverse: {why}", observed=kd.show(gi), expected=kd.show(rinv))
+    # the same element in a graded algebra (stored as complete grades, zero-padded): same inverse
+    if mode == "frac" and d <= 4 and not cfg.get("basis") and rinv not in (None, "generic", "complex"):
+        cdx = clean(dx)
+        gk = list(ref.keys_of_grades(sorted({pc(k) for k in cdx}))) if cdx else []
+        if gk and len(gk) <= 11:
+            galg = kd.build_algebra(cfg, graded=True)
+            gx = kd.mk(galg, gk, [cdx.get(k, F(0)) for k in gk])
+            sg, ginv = kcall(lambda: gx.inv(), "graded x.inv()")
+            if sg != "ok":
+                raise Violation("two-sided-inverse", "inv", f"graded algebra: x.inv() raised {type(ginv).__name__}: {ginv} for the invertible "
+                                f"x = {kd.show(cdx)} stored as complete grades (signature {ref.sig})", exc=type(ginv).__name__)
+            ok, why = kd.elem_equal(kd.to_dict(ginv, op="inv"), rinv)
+            if not ok:
+                raise Violation("two-sided-inverse", "inv", f"graded algebra: x.inv() of x = {kd.show(cdx)} stored as complete grades {gk} "
+                                f"(signature {ref.sig}) differs from the exact inverse: {why}", observed=kd.show(kd.to_dict(ginv)), expected=kd.show(rinv))
+            counters["checked:graded-twin"] = 1
     # the empty multivector as numerator: 0 / x = 0 * x.inv() = 0
     for what, fn in (("empty / x", lambda: kd.mk(alg, [], []) / x), ("alg.div(empty, x)", lambda: alg.div(kd.mk(alg, [], []), x))):
         s0, q0 = kcall(fn, what)
